@@ -13,6 +13,7 @@ import (
 	"fmt"
 	"io"
 	"os"
+	"runtime/debug"
 	"sort"
 	"strconv"
 	"strings"
@@ -611,6 +612,37 @@ func (s *verifStores) reopenFS() {
 func (s *verifStores) dbs() []*asserts.Database { return []*asserts.Database{s.mem, s.fs} }
 
 func (s *verifStores) close() { os.RemoveAll(s.dir) }
+
+// ---------------------------------------------------------------- panics
+
+// verifRecover turns a panic out of snapd code into a <prop>/panic violation
+// with a message that is the same in every execution: the simulator core's
+// own catch-all prints the frames with their pointer arguments, which makes
+// the event log differ between a run and its replay (exit 2 instead of a
+// verdict). Deferred first thing in every Run.
+func verifRecover(c *verifsim.Ctx, stage *string) {
+	r := recover()
+	if r == nil {
+		return
+	}
+	if he, ok := r.(verifsim.HarnessError); ok {
+		panic(he)
+	}
+	var frames []string
+	for _, l := range strings.Split(string(debug.Stack()), "\n") {
+		if !strings.HasPrefix(l, "github.com/snapcore/snapd/asserts") || strings.Contains(l, "asserts_test.") {
+			continue
+		}
+		if i := strings.LastIndex(l, "("); i > 0 {
+			l = l[:i]
+		}
+		frames = append(frames, strings.TrimPrefix(l, "github.com/snapcore/snapd/"))
+		if len(frames) >= 8 {
+			break
+		}
+	}
+	c.Violate(c.Prop+"/panic", "panic in snapd code while %s: %v @ %s", *stage, r, strings.Join(frames, " < "))
+}
 
 // ---------------------------------------------------------------- misc
 
